@@ -207,25 +207,30 @@ def check_log(sc, events, fk_fired, part):
     # --- expected started workers
     if create_rc == 0 and not fault_in_create:
         started = set()
-        shutdown_seen = False
+        maybe = set()          # created while a shutdown issued from another thread may or may not have happened yet
+        shutdown_sync = False
+        shutdown_async = False
         for op, arg in ops:
-            if op in (OP_SHUTDOWN_MAIN, OP_SHUTDOWN_EXT, OP_SHUTDOWN_POOL, OP_DESTROY_MAIN):
-                shutdown_seen = True
-            if op in (OP_THREADS_CREATE, OP_THREADS_CREATE_AGAIN) and not shutdown_seen:
+            if op in (OP_SHUTDOWN_MAIN, OP_DESTROY_MAIN):
+                shutdown_sync = True
+            if op in (OP_SHUTDOWN_EXT, OP_SHUTDOWN_POOL):
+                shutdown_async = True
+            if op in (OP_THREADS_CREATE, OP_THREADS_CREATE_AGAIN) and not shutdown_sync:
                 start = 1 if arg else 0
                 idx = 0
                 for t in range(start, pool):
                     idx += 1
                     if sc["fk_kind"] == 5 and fk_fired and idx == sc["fk_k"]:
                         continue
-                    started.add(t)
-            if op == OP_ATTACH_FIRST and not shutdown_seen:
-                started.add(0)
+                    (maybe if shutdown_async else started).add(t)
+            if op == OP_ATTACH_FIRST and not shutdown_sync:
+                (maybe if shutdown_async else started).add(0)
+        attached = any(o == OP_ATTACH_FIRST for o, _ in ops)
         for t in sorted(started):
-            if hooks.get(t, [0, 0])[0] != 1 and not any(o == OP_ATTACH_FIRST for o, _ in ops):
+            if hooks.get(t, [0, 0])[0] != 1 and not attached:
                 viol.append(("log:hook:worker-start-count", "thread %d was created but its start hook ran %d times" % (t, hooks.get(t, [0, 0])[0])))
         for t in range(pool):
-            if t not in started and hooks.get(t, [0, 0])[0]:
+            if t not in started and t not in maybe and hooks.get(t, [0, 0])[0]:
                 viol.append(("log:hook:start-for-never-started-thread", "thread %d was never started but its start hook ran" % t))
     # --- return codes of the legality checks
     shutdown_done = False
